@@ -7,7 +7,7 @@
 // runs the real pgdump code (in-process, under recover) on the arguments, renders the result in
 // the same canonical text as the Lean driver, and reports per family: agreement counts, tag
 // histogram, distinct non-trivial outputs, samples and every disagreement (as JSON lines).
-package main
+package core
 
 import (
 	"bufio"
@@ -29,7 +29,8 @@ type Handler func(args []string) string
 
 var handlers = map[string]Handler{}
 
-func register(name string, h Handler) { handlers[name] = h }
+// Register makes a family handler known to the harness (call from init()).
+func Register(name string, h Handler) { handlers[name] = h }
 
 type diffRec struct {
 	T     string   `json:"t"`
@@ -102,7 +103,8 @@ func normPanic(s string) string {
 	return s
 }
 
-func main() {
+// Main is the entry point of every area binary.
+func Main() {
 	maxDiffs := 40
 	caseTimeout := 20 * time.Second
 	if v := os.Getenv("VERIF_CASE_TIMEOUT_S"); v != "" {
@@ -114,6 +116,7 @@ func main() {
 	out := bufio.NewWriterSize(os.Stdout, 1<<20)
 	defer out.Flush()
 	enc := json.NewEncoder(out)
+	enc.SetEscapeHTML(false)
 
 	if len(os.Args) > 1 && os.Args[1] == "tables" {
 		writeTables(out)
@@ -173,10 +176,6 @@ func main() {
 			os.Exit(2)
 		}
 		curCase.Store(fam + "#" + idxS)
-		inBytes := 0
-		for _, a := range args {
-			inBytes += len(a) / 2
-		}
 		var m0, m1 runtime.MemStats
 		runtime.ReadMemStats(&m0)
 		t0 := time.Now()
@@ -192,6 +191,13 @@ func main() {
 		runtime.ReadMemStats(&m1)
 		if ms := float64(el.Microseconds()) / 1000; ms > st.MaxMillis {
 			st.MaxMillis = ms
+		}
+		inBytes := 0
+		for _, b := range caseBufs {
+			inBytes += len(b[0])
+		}
+		for _, a := range args {
+			inBytes += len(a)
 		}
 		apb := float64(m1.TotalAlloc-m0.TotalAlloc) / float64(inBytes+4096)
 		if apb > st.MaxAllocPerB {
